@@ -37,12 +37,74 @@ def x86_forms():
     return _cache["x86"]
 
 
+# Forms a64::Assembler implements but db/isa_aarch64.json has no (AdvSIMD / general purpose) record for. They are appended
+# AFTER the database records (indexes of those stay) in the shape of the dump, flagged `_supplement` (the generator draws
+# their random picks from a side stream). Templates are written from the Arm ARM (C7.2.78/79 FCVTXN, C6.2 AND/ANDS/ORR/EOR
+# (immediate), of which `bic/bics/orn/eon Rd, Rn, #imm` are the assemblers' inverted-immediate spellings).
+_A64_SUPPLEMENT = [
+    ("fcvtxn", ["Sd", "Dn"], "01111110|01|10000|10110|10|Vn|Vd", "ASIMD", None),
+    ("fcvtxn", ["Vd.2S", "Vn.2D"], "00101110|01|10000|10110|10|Vn|Vd", "ASIMD", None),
+    ("fcvtxn2", ["Vx.4S", "Vn.2D"], "01101110|01|10000|10110|10|Vn|Vx", "ASIMD", None),
+    # (the database has these with wrong operands: fcvtn Vd.4S, Vn.4H; crc32x Xd, Xn, Xm; frecpx Sd, Sn, Sm; xpaclri Xd; chkfeat
+    # without its X16 - AsmJit refuses those, rightly, and the instructions were never exercised)
+    ("fcvtn", ["Vd.4H", "Vn.4S"], "00001110|00|10000|10110|10|Vn|Vd", "ASIMD", None),
+    ("fcvtn", ["Vd.2S", "Vn.2D"], "00001110|01|10000|10110|10|Vn|Vd", "ASIMD", None),
+    ("fcvtn2", ["Vx.8H", "Vn.4S"], "01001110|00|10000|10110|10|Vn|Vx", "ASIMD", None),
+    ("fcvtn2", ["Vx.4S", "Vn.2D"], "01001110|01|10000|10110|10|Vn|Vx", "ASIMD", None),
+    ("crc32x", ["Wd", "Wn", "Xm"], "10011010110|Rm|010|0|11|Rn|Rd", "GP", None),
+    ("crc32cx", ["Wd", "Wn", "Xm"], "10011010110|Rm|010|1|11|Rn|Rd", "GP", None),
+    ("frecpx", ["Hd", "Hn"], "01011110|11|11100|11111|10|Vn|Vd", "ASIMD", None),
+    ("frecpx", ["Sd", "Sn"], "01011110|10|10000|11111|10|Vn|Vd", "ASIMD", None),
+    ("frecpx", ["Dd", "Dn"], "01011110|11|10000|11111|10|Vn|Vd", "ASIMD", None),
+    ("xpaclri", [], "11010101000000110010000011111111", "GP", None),
+    ("chkfeat", ["X16"], "11010101000000110010010100011111", "GP", None),
+    ("bic", ["Wd|WSP", "Wn", "#log_imm"], "00010010|0|imm:13|Rn|Rd", "GP", "ImmLogical"),
+    ("bic", ["Xd|SP", "Xn", "#log_imm"], "10010010|0|imm:13|Rn|Rd", "GP", "ImmLogical"),
+    ("bics", ["Wd", "Wn", "#log_imm"], "01110010|0|imm:13|Rn|Rd", "GP", "ImmLogical"),
+    ("bics", ["Xd", "Xn", "#log_imm"], "11110010|0|imm:13|Rn|Rd", "GP", "ImmLogical"),
+    ("orn", ["Wd|WSP", "Wn", "#log_imm"], "00110010|0|imm:13|Rn|Rd", "GP", "ImmLogical"),
+    ("orn", ["Xd|SP", "Xn", "#log_imm"], "10110010|0|imm:13|Rn|Rd", "GP", "ImmLogical"),
+    ("eon", ["Wd|WSP", "Wn", "#log_imm"], "01010010|0|imm:13|Rn|Rd", "GP", "ImmLogical"),
+    ("eon", ["Xd|SP", "Xn", "#log_imm"], "11010010|0|imm:13|Rn|Rd", "GP", "ImmLogical"),
+]
+
+
+def _supplement_record(name, ops, opcode, category, imm_call):
+    fields, value, pos = {}, 0, 32
+    for part in opcode.split("|"):
+        if set(part) <= set("01"):
+            pos -= len(part)
+            value |= int(part, 2) << pos
+            continue
+        fname, _, bits = part.partition(":")
+        n = int(bits) if bits else 5
+        pos -= n
+        fields[fname] = {"index": pos, "values": [{"index": pos, "from": 0, "size": n}], "bits": n, "mask": (1 << n) - 1, "lbit": 0, "hbit": 0}
+    if pos != 0:
+        raise common.HarnessError("supplemental template %s %s is not 32 bits wide" % (name, opcode))
+    operands = []
+    for d in ops:
+        if d.startswith("#"):
+            operands.append({"type": "imm", "data": d, "imm": d[1:]})
+        else:
+            operands.append({"type": "reg", "data": d})
+    rec = {"name": name, "arch": "ANY", "operands": operands, "opcodeString": opcode, "opcodeValue": value, "fields": fields,
+           "category": {category: True}, "ext": {}, "_supplement": True, "negated_logical": imm_call is not None}
+    if imm_call:
+        rec["imm"] = {"type": "call", "name": imm_call, "args": []}
+    return rec
+
+
 def a64_forms():
     if "a64" not in _cache:
         p = os.path.join(_dump_dir(), "a64_forms.json")
         if not os.path.exists(p):
             raise common.HarnessError("AArch64 ISA database dump missing")
         forms = json.load(open(p))
+        have = set((f["name"], ",".join(o["data"] for o in f["operands"])) for f in forms)
+        for spec in _A64_SUPPLEMENT:
+            if (spec[0], ",".join(spec[1])) not in have:      # (the database may gain the record one day)
+                forms.append(_supplement_record(*spec))
         for i, f in enumerate(forms):
             f["_idx"] = i
         _cache["a64"] = forms
